@@ -231,7 +231,9 @@ HandleProposal(s, src, p) ==
   ELSE IF p.pol < -1 \/ (p.pol >= 0 /\ p.pol >= p.r) THEN s           \* ErrInvalidProposalPOLRound
   ELSE IF src # Proposer(s.round) /\ ~W("ProposalAnySigner") THEN s    \* ErrInvalidProposalSignature
   ELSE [s EXCEPT !.prop = [r |-> p.r, v |-> p.v, pol |-> p.pol],
-                 !.partsHdr = IF s.partsHdr = Nil THEN p.v ELSE s.partsHdr]
+                 \* "We don't update cs.ProposalBlockParts if it is already set": in the commit step it is the part set of
+                 \* the DECIDED block; a proposal for another block must not displace it (the node would wait for ever)
+                 !.partsHdr = IF s.partsHdr = Nil \/ (W("ProposalResetsParts") /\ s.partsHdr # p.v) THEN p.v ELSE s.partsHdr]
 
 \* cs.handleCompleteProposal
 HandleCompleteProposal(s) ==
